@@ -55,6 +55,122 @@ func wrapMul(t Term, bits int, signed bool) Term {
 	return Ite(And(Le(lo, t), Le(t, hi)), t, wrapInt(t, bits, signed))
 }
 
+const maxSliceCapInt = int64(70368744177664)
+
+// ---- interval tracker --------------------------------------------------------------------
+// Terms whose value is confined by facts the query asserts anyway (slice lengths and
+// capacities, constants, and arithmetic over them) get an interval. An addition, subtraction
+// or multiplication whose exact result provably fits the machine type is emitted without the
+// wrap-around case split; everything else keeps the exact wrap-around semantics.
+
+func (fc *FnCtx) noteRange(t Term, lo, hi *big.Int) {
+	if t.Sort != SInt {
+		return
+	}
+	if fc.rng == nil {
+		fc.rng = map[string][2]*big.Int{}
+	}
+	if old, ok := fc.rng[t.S]; ok {
+		if old[0].Cmp(lo) > 0 {
+			lo = old[0]
+		}
+		if old[1].Cmp(hi) < 0 {
+			hi = old[1]
+		}
+	}
+	fc.rng[t.S] = [2]*big.Int{lo, hi}
+}
+
+func (fc *FnCtx) rangeOf(t Term) (lo, hi *big.Int, ok bool) {
+	if t.Sort != SInt {
+		return nil, nil, false
+	}
+	if n, isNum := new(big.Int).SetString(t.S, 10); isNum {
+		return n, n, true
+	}
+	if len(t.S) > 4 && t.S[:3] == "(- " && t.S[len(t.S)-1] == ')' {
+		if n, isNum := new(big.Int).SetString(t.S[3:len(t.S)-1], 10); isNum {
+			n.Neg(n)
+			return n, n, true
+		}
+	}
+	if r, found := fc.rng[t.S]; found {
+		return r[0], r[1], true
+	}
+	return nil, nil, false
+}
+
+// arith builds x op y for a machine integer type, without the wrap-around split when the
+// intervals of the operands prove that the exact result fits.
+func (fc *FnCtx) arith(op token.Token, x, y Term, bits int, signed bool) Term {
+	var exact Term
+	switch op {
+	case token.ADD:
+		exact = Add(x, y)
+	case token.SUB:
+		exact = Sub(x, y)
+	default:
+		exact = Mul(x, y)
+	}
+	xl, xh, okx := fc.rangeOf(x)
+	yl, yh, oky := fc.rangeOf(y)
+	if okx && oky {
+		var lo, hi *big.Int
+		switch op {
+		case token.ADD:
+			lo, hi = new(big.Int).Add(xl, yl), new(big.Int).Add(xh, yh)
+		case token.SUB:
+			lo, hi = new(big.Int).Sub(xl, yh), new(big.Int).Sub(xh, yl)
+		default:
+			cands := []*big.Int{new(big.Int).Mul(xl, yl), new(big.Int).Mul(xl, yh), new(big.Int).Mul(xh, yl), new(big.Int).Mul(xh, yh)}
+			lo, hi = cands[0], cands[0]
+			for _, c := range cands[1:] {
+				if c.Cmp(lo) < 0 {
+					lo = c
+				}
+				if c.Cmp(hi) > 0 {
+					hi = c
+				}
+			}
+		}
+		tlo, thi := intRangeBig(bits, signed)
+		if lo.Cmp(tlo) >= 0 && hi.Cmp(thi) <= 0 {
+			fc.noteRange(exact, lo, hi)
+			return exact
+		}
+	}
+	if op == token.MUL {
+		return wrapMul(exact, bits, signed)
+	}
+	return wrapOnce(exact, bits, signed)
+}
+
+func intRangeBig(bits int, signed bool) (*big.Int, *big.Int) {
+	if signed {
+		h := pow2(bits - 1)
+		return new(big.Int).Neg(h), new(big.Int).Sub(h, bigOne)
+	}
+	return big.NewInt(0), new(big.Int).Sub(pow2(bits), bigOne)
+}
+
+// noteDivRem records the interval of x/c and x%c for a positive constant c.
+func (fc *FnCtx) noteDivRem(res Term, isRem bool, x Term, c int64) {
+	xl, xh, ok := fc.rangeOf(x)
+	cb := big.NewInt(c)
+	if isRem {
+		m := big.NewInt(c - 1)
+		if ok && xl.Sign() >= 0 {
+			fc.noteRange(res, big.NewInt(0), m)
+		} else {
+			fc.noteRange(res, new(big.Int).Neg(m), m)
+		}
+		return
+	}
+	if ok {
+		fc.noteRange(res, new(big.Int).Quo(xl, cb), new(big.Int).Quo(xh, cb))
+	}
+}
+
 // tdiv / trem: Go's truncated division on Ints.
 func tdiv(a, b Term) Term { return mk(SInt, "tdiv", a, b) }
 func trem(a, b Term) Term { return mk(SInt, "trem", a, b) }
@@ -213,19 +329,19 @@ func (fc *FnCtx) binop(op token.Token, x, y Term, t types.Type, yt types.Type) (
 	}
 	if x.Sort == SInt {
 		switch op {
-		case token.ADD:
-			return wrapOnce(Add(x, y), bits, signed), none
-		case token.SUB:
-			return wrapOnce(Sub(x, y), bits, signed), none
-		case token.MUL:
-			return wrapMul(Mul(x, y), bits, signed), none
+		case token.ADD, token.SUB, token.MUL:
+			return fc.arith(op, x, y, bits, signed), none
 		case token.QUO:
 			if c, ok := intConst(y); ok && c > 0 {
 				// division by a positive constant cannot overflow; for non-negative x it is floor division
+				var r Term
 				if signed {
-					return tdiv(x, y), none
+					r = tdiv(x, y)
+				} else {
+					r = mk(SInt, "div", x, y)
 				}
-				return mk(SInt, "div", x, y), none
+				fc.noteDivRem(r, false, x, c)
+				return r, none
 			}
 			if signed {
 				return wrapOnce(tdiv(x, y), bits, signed), Not(Eq(y, IntLit(0)))
@@ -233,10 +349,14 @@ func (fc *FnCtx) binop(op token.Token, x, y Term, t types.Type, yt types.Type) (
 			return mk(SInt, "div", x, y), Not(Eq(y, IntLit(0)))
 		case token.REM:
 			if c, ok := intConst(y); ok && c > 0 {
+				var r Term
 				if signed {
-					return trem(x, y), none
+					r = trem(x, y)
+				} else {
+					r = mk(SInt, "mod", x, y)
 				}
-				return mk(SInt, "mod", x, y), none
+				fc.noteDivRem(r, true, x, c)
+				return r, none
 			}
 			if signed {
 				return trem(x, y), Not(Eq(y, IntLit(0)))
